@@ -4,50 +4,82 @@
    Model (Sem/Scope.v): [correlate evs] = every reference slot of one program unit (variable and
    component types / interfaces, extends, binding targets and prototypes, finals, constructors,
    module procedures of generic interfaces) with the entity FORD's correlate() puts there; evs is
-   the unit as the event sequence of FORD's traversal, dictionaries are tables in a store so that
-   the sharing of all_types / all_absinterfaces between a scope and its host is explicit.
+   the unit as the event sequence of FORD's traversal; every scope has dictionaries of its own,
+   copied from its host's when it is entered (FortranCodeUnit.correlate after the repair of the two
+   defects this property found).
    Spec: [spec evs] = the same slots resolved by Fortran's rules (innermost enclosing scope that
-   declares the name or obtains it by use association; nothing from sibling or contained scopes). *)
+   declares the name or obtains it by use association; nothing from sibling or contained scopes).
+   [scopes_legal]: in one scope a use-associated name is not declared again and not obtained twice
+   for different entities (a legality condition of Fortran, decidable). *)
 From Ford Require Import Base.Str Sem.Scope Sem.ScopeProofs.
 
-(* Full statement: for every well-formed unit (any nesting depth, any number of scopes and slots)
-   the model's slots are exactly the Spec's.  It is FALSE of the code. *)
+(* Full statement: for every well-formed, legal unit (any nesting depth, any number of scopes and
+   slots, names reused freely across scopes) the model's slots are exactly the Spec's.  One
+   defect remains, so it is still FALSE of the code (C07_refuted_abs_over_proc). *)
 Definition C07_statement : Prop :=
-  forall evs, wf_events evs = true -> forall r, In r (correlate evs) <-> In r (spec evs).
+  forall evs, wf_events evs = true -> scopes_legal evs = true ->
+  forall r, In r (correlate evs) <-> In r (spec evs).
 
-(* Partial: holds when an identifier denotes one entity in the whole unit (as a type; as a
-   procedure or abstract interface) AND every referenced name is either visible from where it is
-   referenced or declared nowhere in the unit.  (Uniqueness alone is not enough: see
-   C07_refuted_sibling_leak, whose witness has unique names.) *)
+(* Full for every slot that is not a procedure(n) reference (types of variables and components,
+   extends, binding targets, finals, constructors, module procedures): no region. *)
+Theorem C07_types_and_procedures : forall evs,
+  wf_events evs = true -> scopes_legal evs = true ->
+  forall r, r_look r <> LProcAbs -> (In r (correlate evs) <-> In r (spec evs)).
+Proof. exact types_and_procs_correct. Qed.
+Print Assumptions C07_types_and_procedures.
+
+(* Partial: all slots, when no procedure(n) reference sits where an abstract interface n of an
+   inner scope hides a procedure n of an outer scope (decidable, pins the remaining finding). *)
 Theorem C07_partial : forall evs,
-  wf_events evs = true -> names_unique_per_root evs = true -> refs_visible_or_undeclared evs = true ->
+  wf_events evs = true -> scopes_legal evs = true -> procabs_consistent evs = true ->
   forall r, In r (correlate evs) <-> In r (spec evs).
 Proof. exact partial_correct. Qed.
 Print Assumptions C07_partial.
 
-(* Witness 1: module m; subroutine helper; subroutine a with an internal helper of its own and
-   procedure(helper), pointer :: p.  The slot of p holds m's helper, Fortran designates a's. *)
-Theorem C07_refuted_proc_shadow :
-  refuted_by w_shadow {| r_scope := map s ["m"; "a"]%string; r_slot := SVar (s "p"); r_look := LProcAbs;
-                         r_name := s "helper"; r_ent := Some (map s ["m"; "helper"]%string) |}
-  /\ names_unique_per_root w_shadow = false.
-Proof. exact refuted_proc_shadow. Qed.
-Print Assumptions C07_refuted_proc_shadow.
+(* What the code does in every legal unit, region included: the Spec with procedure(n) read as
+   "a visible procedure n, else a visible abstract interface n". *)
+Theorem C07_model_characterised : forall evs,
+  wf_events evs = true -> scopes_legal evs = true ->
+  forall r, In r (correlate evs) <-> In r (spec_procs_first evs).
+Proof. exact model_is_spec_procs_first. Qed.
+Print Assumptions C07_model_characterised.
 
-(* Witness 2: type t is declared inside subroutine a only; the sibling b declares type(t) :: y.
-   The slot of y holds a's t, Fortran designates nothing (the name must stay text). *)
-Theorem C07_refuted_sibling_leak :
-  refuted_by w_leak {| r_scope := map s ["m"; "b"]%string; r_slot := SVar (s "y"); r_look := LType;
-                       r_name := s "t"; r_ent := Some (map s ["m"; "a"; "t"]%string) |}
-  /\ names_unique_per_root w_leak = true /\ refs_visible_or_undeclared w_leak = false.
-Proof. exact refuted_sibling_leak. Qed.
-Print Assumptions C07_refuted_sibling_leak.
+(* Witness: module m; subroutine x; subroutine a with an abstract interface x of its own and
+   procedure(x), pointer :: p.  The slot of p holds the module procedure, Fortran designates a's
+   abstract interface. *)
+Theorem C07_refuted_abs_over_proc :
+  refuted_by w_absproc {| r_scope := map s ["m"; "a"]%string; r_slot := SVar (s "p"); r_look := LProcAbs;
+                          r_name := s "x"; r_ent := Some (map s ["m"; "x"]%string) |}
+  /\ procabs_consistent w_absproc = false.
+Proof. exact refuted_abs_over_proc. Qed.
+Print Assumptions C07_refuted_abs_over_proc.
 
 Theorem C07_statement_refuted : ~ C07_statement.
 Proof.
-  intros H. destruct refuted_proc_shadow as [(Hwf & Hin & Hn) _]. apply Hn. now apply (H _ Hwf).
+  intros H. destruct refuted_abs_over_proc as [(Hwf & Hl & Hin & Hn) _]. apply Hn. now apply (H _ Hwf Hl).
 Qed.
 Print Assumptions C07_statement_refuted.
+
+(* The witnesses of the two repaired defects (a contained procedure did not shadow a host
+   procedure; a type local to one procedure was visible in its sibling and in the host) now get
+   Fortran's answer in the model. *)
+Theorem C07_fixed_proc_shadow :
+  wf_events w_shadow = true /\ scopes_legal w_shadow = true /\ procabs_consistent w_shadow = true /\
+  In {| r_scope := map s ["m"; "a"]%string; r_slot := SVar (s "p"); r_look := LProcAbs;
+        r_name := s "helper"; r_ent := Some (map s ["m"; "a"; "helper"]%string) |} (correlate w_shadow).
+Proof. exact fixed_proc_shadow. Qed.
+Print Assumptions C07_fixed_proc_shadow.
+
+Theorem C07_fixed_sibling_leak :
+  wf_events w_leak = true /\ scopes_legal w_leak = true /\ procabs_consistent w_leak = true /\
+  In {| r_scope := map s ["m"; "b"]%string; r_slot := SVar (s "y"); r_look := LType;
+        r_name := s "t"; r_ent := None |} (correlate w_leak) /\
+  In {| r_scope := map s ["m"]%string; r_slot := SVar (s "z"); r_look := LType;
+        r_name := s "t"; r_ent := None |} (correlate w_leak) /\
+  In {| r_scope := map s ["m"; "a"]%string; r_slot := SVar (s "x"); r_look := LType;
+        r_name := s "t"; r_ent := Some (map s ["m"; "a"; "t"]%string) |} (correlate w_leak).
+Proof. exact fixed_sibling_leak. Qed.
+Print Assumptions C07_fixed_sibling_leak.
 
 (* Full, for every event sequence (well-formed or not): a slot is only ever resolved under a name
    that some scope of the unit declares or obtains by use association; a name declared nowhere
@@ -59,11 +91,12 @@ Print Assumptions C07_unresolved_stays_text.
 
 (* non-vacuity: a unit with every kind of slot, three nesting levels, interface bodies, a
    use-associated name and undeclared names satisfies the hypotheses of C07_partial; 24 slots,
-   some resolved, some not *)
+   some resolved, some not, some of them procedure(n) references *)
 Theorem C07_example_hypotheses :
-  wf_events ex_unit = true /\ names_unique_per_root ex_unit = true /\ refs_visible_or_undeclared ex_unit = true /\
+  wf_events ex_unit = true /\ scopes_legal ex_unit = true /\ procabs_consistent ex_unit = true /\
   length (correlate ex_unit) = 24 /\
   existsb (fun r => match r_ent r with Some _ => true | None => false end) (correlate ex_unit) = true /\
-  existsb (fun r => match r_ent r with Some _ => false | None => true end) (correlate ex_unit) = true.
+  existsb (fun r => match r_ent r with Some _ => false | None => true end) (correlate ex_unit) = true /\
+  existsb (fun r => match r_look r with LProcAbs => true | _ => false end) (correlate ex_unit) = true.
 Proof. exact ex_unit_hypotheses. Qed.
 Print Assumptions C07_example_hypotheses.
